@@ -3,6 +3,22 @@
 // rpki::rtr::payload::Action: a plain two-variant Copy enum in rpki.
 #[derive(Clone, Copy)]
 pub enum Action { Announce, Withdraw }
+// derive(PartialEq, Eq) in rpki: structural equality (ASSUMED)
+impl PartialEqSpecImpl for Action {
+    open spec fn obeys_eq_spec() -> bool { true }
+    open spec fn eq_spec(&self, other: &Action) -> bool { *self == *other }
+}
+impl PartialEq for Action {
+    #[verifier::external_body]
+    fn eq(&self, other: &Action) -> bool { unimplemented!() }
+}
+impl Eq for Action {}
+impl Action {
+    #[verifier::external_body]
+    pub fn is_announce(self) -> (r: bool) ensures r == (self is Announce) { unimplemented!() }
+    #[verifier::external_body]
+    pub fn is_withdraw(self) -> (r: bool) ensures r == (self is Withdraw) { unimplemented!() }
+}
 
 // std: `impl<A: Clone, B: Clone> Clone for (A, B)` clones componentwise. Verus cannot express the
 // built-in tuple impl, so rewrite R11 turns `x.clone()` on the listed pair-typed variables into
@@ -53,6 +69,17 @@ impl Clone for Asn {
     fn clone(&self) -> (r: Asn) ensures r == *self { unimplemented!() }
 }
 impl Copy for Asn {}
+impl Asn {
+    pub uninterp spec fn as_u32(&self) -> u32;
+    #[verifier::external_body]
+    pub fn from_u32(value: u32) -> (r: Asn) ensures r.as_u32() == value { unimplemented!() }
+    #[verifier::external_body]
+    pub fn into_u32(self) -> (r: u32) ensures r == self.as_u32() { unimplemented!() }
+}
+impl PartialEqSpecImpl for Asn {
+    open spec fn obeys_eq_spec() -> bool { true }
+    open spec fn eq_spec(&self, other: &Asn) -> bool { *self == *other }
+}
 impl PartialEq for Asn {
     #[verifier::external_body]
     fn eq(&self, other: &Asn) -> bool { unimplemented!() }
@@ -73,7 +100,13 @@ impl Ord for Asn {
 pub struct ProviderAsns { _opaque: () }
 impl ProviderAsns {
     pub uninterp spec fn empty_spec() -> ProviderAsns;
+    pub uninterp spec fn asn_count_spec(&self) -> u16;
+    #[verifier::external_body]
+    pub fn empty() -> (r: ProviderAsns) ensures r == ProviderAsns::empty_spec() { unimplemented!() }
+    #[verifier::external_body]
+    pub fn asn_count(&self) -> (r: u16) ensures r == self.asn_count_spec() { unimplemented!() }
 }
+impl Eq for ProviderAsns {}
 impl Clone for ProviderAsns {
     #[verifier::external_body]
     fn clone(&self) -> (r: ProviderAsns) ensures r == *self { unimplemented!() }
@@ -104,9 +137,33 @@ impl Aspa {
         ensures r == (Aspa { customer: self.customer, providers: ProviderAsns::empty_spec() }),
     { unimplemented!() }
 }
+impl Aspa {
+    #[verifier::external_body]
+    pub fn new(customer: Asn, providers: ProviderAsns) -> (r: Aspa)
+        ensures r == (Aspa { customer, providers }),
+    { unimplemented!() }
+}
 impl Clone for Aspa {
     #[verifier::external_body]
     fn clone(&self) -> (r: Aspa) ensures r == *self { unimplemented!() }
+}
+// derive(PartialEq, Eq, PartialOrd, Ord) in rpki: == is structural (ASSUMED); the order is not modelled
+impl PartialEqSpecImpl for Aspa {
+    open spec fn obeys_eq_spec() -> bool { true }
+    open spec fn eq_spec(&self, other: &Aspa) -> bool { *self == *other }
+}
+impl PartialEq for Aspa {
+    #[verifier::external_body]
+    fn eq(&self, other: &Aspa) -> bool { unimplemented!() }
+}
+impl Eq for Aspa {}
+impl PartialOrd for Aspa {
+    #[verifier::external_body]
+    fn partial_cmp(&self, other: &Aspa) -> Option<Ordering> { unimplemented!() }
+}
+impl Ord for Aspa {
+    #[verifier::external_body]
+    fn cmp(&self, other: &Aspa) -> Ordering { unimplemented!() }
 }
 
 // routinator's PayloadInfo: not used by the delta code beyond being passed along.
@@ -119,6 +176,31 @@ pub struct PayloadInfo { _opaque: () }
 #[derive(Clone, Copy)]
 pub struct Serial(pub u32);
 pub open spec fn wadd(a: u32, b: int) -> u32 { ((a as int + b) % 0x1_0000_0000) as u32 }
+impl PartialEqSpecImpl for Serial {
+    open spec fn obeys_eq_spec() -> bool { true }
+    open spec fn eq_spec(&self, other: &Serial) -> bool { self.0 == other.0 }
+}
+impl PartialEq for Serial {
+    #[verifier::external_body]
+    fn eq(&self, other: &Self) -> bool { unimplemented!() }
+}
+impl Eq for Serial {}
+impl vstd::std_specs::convert::FromSpecImpl<u32> for Serial {
+    open spec fn obeys_from_spec() -> bool { true }
+    open spec fn from_spec(v: u32) -> Serial { Serial(v) }
+}
+impl From<u32> for Serial {
+    #[verifier::external_body]
+    fn from(value: u32) -> Serial { unimplemented!() }
+}
+impl vstd::std_specs::convert::FromSpecImpl<Serial> for u32 {
+    open spec fn obeys_from_spec() -> bool { true }
+    open spec fn from_spec(v: Serial) -> u32 { v.0 }
+}
+impl From<Serial> for u32 {
+    #[verifier::external_body]
+    fn from(value: Serial) -> u32 { unimplemented!() }
+}
 impl Serial {
     #[verifier::external_body]
     pub fn add(self, other: u32) -> (r: Serial)
@@ -135,6 +217,10 @@ pub struct RouteOrigin { _opaque: () }
 impl Clone for RouteOrigin {
     #[verifier::external_body]
     fn clone(&self) -> (r: RouteOrigin) ensures r == *self { unimplemented!() }
+}
+impl PartialEqSpecImpl for RouteOrigin {
+    open spec fn obeys_eq_spec() -> bool { true }
+    open spec fn eq_spec(&self, other: &RouteOrigin) -> bool { *self == *other }
 }
 impl PartialEq for RouteOrigin {
     #[verifier::external_body]
@@ -154,6 +240,10 @@ pub struct RouterKey { _opaque: () }
 impl Clone for RouterKey {
     #[verifier::external_body]
     fn clone(&self) -> (r: RouterKey) ensures r == *self { unimplemented!() }
+}
+impl PartialEqSpecImpl for RouterKey {
+    open spec fn obeys_eq_spec() -> bool { true }
+    open spec fn eq_spec(&self, other: &RouterKey) -> bool { *self == *other }
 }
 impl PartialEq for RouterKey {
     #[verifier::external_body]
@@ -183,6 +273,11 @@ impl<'a, T> Iterator for CollIter<'a, T> {
     type Item = (&'a T, &'a PayloadInfo);
     #[verifier::external_body]
     fn next(&mut self) -> Option<(&'a T, &'a PayloadInfo)> { unimplemented!() }
+    // std: `count` runs the iterator to completion and returns the number of items it yielded
+    #[verifier::external_body]
+    fn count(self) -> (r: usize)
+        ensures self.will_return_none(), r == self.remaining().len(),
+    { unimplemented!() }
 }
 
 pub open spec fn pair_firsts<T>(s: Seq<(&T, &PayloadInfo)>) -> Seq<T> { s.map_values(|x: (&T, &PayloadInfo)| *x.0) }
@@ -216,3 +311,8 @@ impl PayloadSnapshot {
             r.will_return_none() ==> pair_firsts(r.remaining()) == self.aspas_spec(),
     { unimplemented!() }
 }
+
+// std functions without a vstd specification (ASSUMED: the std semantics)
+pub assume_specification<'a, T> [<std::slice::Iter<'a, T> as Iterator>::count] (it: std::slice::Iter<'a, T>) -> (r: usize)
+    ensures it.will_return_none(), r == it.remaining().len(),
+;
